@@ -10,7 +10,9 @@ EP_TEXT = ("MC_Endpoint.tla/Endpoint.tla (the connection state machine, one acti
            "several small slices with the property's predicates (Props.tla) as an action property over every transition. Every explored "
            "transition is a history of public calls that conn-harness replays on the real GenericConnection, together with seeded random "
            "histories; TLC (Trace_Endpoint.tla) then walks the recorded trie, rebuilds the ghost from logged observables only and evaluates "
-           "the same predicates at every node (verdict), and runs Endpoint.tla in lock-step (drift report).")
+           "the same predicates at every node (verdict), and runs Endpoint.tla in lock-step (drift report); every history at which "
+           "the real object's state departs from the specification's is continued by its whole three-step neighbourhood in the model's "
+           "state graph and judged in a second pass.")
 EP_NOTE = ("Trusted: Props.tla's reading of the statement (DESIGN.md section 4), the abstraction of packets (fixed encodings), the "
            "verif_state hook for the clauses that say 'state untouched', TLC. Bounded: small alphabets per slice, sampled replay in the quick tier.")
 EP_TECH = "TLA+ Endpoint spec + TLC model checking; transition-cover replay into the real connection; TLC trace validation of the recorded trie with ghost-variable predicates"
